@@ -156,7 +156,16 @@ def gen_held(rng, k):
             lines.append("q %s %s %s %s" % (s, qid, kd, target))
             msgs.append((s, qid, kd))
     lines.append("release " + rel)
-    return lines, dict(target=target, joiner=joiner, jid=jid, jkind=jkind, rel=rel, msgs=msgs)
+    post = []
+    if senders and rng.random() < 0.2:
+        # requests after the load has ended (the topic is loaded / unregistered again): judged by the laws only
+        for i in range(rng.choice([1, 2, 3])):
+            s = rng.choice(senders)
+            kd = rng.choice(["pub", "recv", "getdesc", "sub", "leave", "kp", "deltopic", "pub"])
+            qid = "p%d-%d" % (k, i)
+            lines.append("q %s %s %s %s" % (s, qid, kd, target))
+            post.append((s, qid, kd))
+    return lines, dict(target=target, joiner=joiner, jid=jid, jkind=jkind, rel=rel, msgs=msgs, post=post)
 
 
 def fixed_held():
@@ -406,7 +415,7 @@ def check_held(ctx, stats, name, lines, meta, rec, fatal_here):
     window = blocks[blocks.index(hold[0]):]
     sent = {s: {} for s in SESS}          # session -> id -> kind
     sent[meta["joiner"]][meta["jid"]] = meta.get("jkind", "sub")     # {sub get=..}: the get part may add its own (error) {ctrl}
-    for s, qid, kd in meta["msgs"]:
+    for s, qid, kd in meta["msgs"] + meta.get("post", []):
         if kd not in NOTE_KINDS and kd != "pubnoid":
             sent[s][qid] = kd
     got = {s: [] for s in SESS}
@@ -432,6 +441,20 @@ def check_held(ctx, stats, name, lines, meta, rec, fatal_here):
                               "released, the joiner's next {sub}/{leave} waits for ever" % (name, meta["target"], w[6:]), replay)
             if w.startswith("res=") and w[4:].startswith(("PANIC", "HANG")):
                 ctx.violation("monitor", "read-loop-panic@" + (w.split(":")[1] if ":" in w else "hang"), "held-load scenario %s: %s" % (name, " ".join(b["head"])), replay)
+    if stuck:
+        # the driver leaves after a release that never comes to rest: the requests after it were not sent
+        for s0, qid, kd in meta.get("post", []):
+            sent[s0].pop(qid, None)
+    if not stuck:
+        for b in window:
+            if b["head"][0] != "release":
+                continue
+            for l in b["state"]:
+                w = l.split()
+                if w[0] == "S" and kv(w)["inflight"] not in ("0", "nil"):
+                    # law (theorem c13_inflight_free_at_rest): at rest every live connection's request slot is free
+                    ctx.violation("monitor", "inflight-slot-not-free", "held-load scenario %s (topic %s, release %s): at rest connection %s still holds %s request slot(s): its next "
+                                  "{sub}/{leave} will block for ever" % (name, meta["target"], meta["rel"], w[1], kv(w)["inflight"]), replay)
     stats["held"]["scenarios"] += 1
     stats["held"]["by_target"][meta["target"]] = stats["held"]["by_target"].get(meta["target"], 0) + 1
     held = hd.get("held") == "1"
@@ -472,7 +495,7 @@ def check_held(ctx, stats, name, lines, meta, rec, fatal_here):
             elif kd in ONCE_KINDS and counts.get(qid, 0) > 1:
                 ctx.violation("monitor", "answered-twice-held-" + kd, "held-load scenario %s: the {%s id=%r} of session %s is answered by %d {ctrl} frames" % (name, kd, qid, s, counts[qid]), replay)
         stats["held"]["requests"] += len(sent[s])
-    comparable = held and hd.get("wasloaded") == "0" and meta["rel"] in ("ok", "fail1") and not stuck
+    comparable = held and hd.get("wasloaded") == "0" and meta["rel"] in ("ok", "fail1") and not stuck and not meta.get("post")
     if meta["target"] in ("P", "Q"):
         # a {sub} that arrives after a {del what=topic} has unregistered the p2p topic starts a SECOND load (and attaches
         # the sender): outside the model of one load
@@ -576,12 +599,12 @@ def run_part(ctx, stats):
         scen = []
         for i, ops in enumerate(fixed_slow()):
             scen.append(("slowfix%d" % i, ["op " + o.replace(":", " ") for o in ops], ops, None))
-        for i in range(16 if quick else 400):
+        for i in range(24 if quick else 400):
             ops = gen_slow(rng, 26)
             scen.append(("slow%d" % i, ["op " + o.replace(":", " ") for o in ops], ops, None))
         for i, (lines, meta) in enumerate(fixed_held()):
             scen.append(("heldfix%d" % i, lines, None, meta))
-        for i in range(70 if quick else 2500):
+        for i in range(110 if quick else 2500):
             lines, meta = gen_held(rng, i)
             scen.append(("held%d" % i, lines, None, meta))
     pending = scen
@@ -612,7 +635,9 @@ def run_part(ctx, stats):
         if fatal is None:
             break
         restarts += 1
-        if fatal["scenario"] < 0 or restarts > 12 or ctx.replay:
+        st["driver_restarts"] = restarts
+        if fatal["scenario"] < 0 or restarts > (25 if quick else 400) or ctx.replay:
+            st["scenarios_not_run_after_restart_cap"] = max(0, len(pending) - fatal["scenario"] - 1)
             if fatal["scenario"] < 0:
                 ctx.violation("corr", "driver-crashed", "TestVerifC13x failed before the first scenario: %s\n%s" % (fatal["msg"], fatal["log"][-1500:]), {"correspondence": "driver run"})
             break
@@ -627,13 +652,15 @@ def run_part(ctx, stats):
 
 
 def meta_of_lines(lines):
-    meta = dict(msgs=[], rel="ok", target="?", joiner="?", jid="?")
+    meta = dict(msgs=[], post=[], rel="ok", target="?", joiner="?", jid="?")
+    released = False
     for l in lines:
         w = l.split()
         if w[0] == "hold":
             meta.update(joiner=w[1], target=w[2], jid=w[3], jkind=(w[4] if len(w) > 4 else "sub"))
         elif w[0] == "q":
-            meta["msgs"].append((w[1], w[2], w[3]))
+            meta["post" if released else "msgs"].append((w[1], w[2], w[3]))
         elif w[0] == "release":
             meta["rel"] = w[1]
+            released = True
     return meta
